@@ -139,8 +139,10 @@ def r12_3(ctx: Ctx):
             obs.append(o)
     # a direction kept by an engine object must be the problem's own (R13.8): otherwise `better` means `worse` for one direction
     for o in c13.r13_8(ctx):
-        o.rule = "R12.3"
-        obs.append(o)
+        # only the engines' own direction concerns elitism; a sprout filter's is C10 / C13's business
+        if any(k in (o.subject or "") + (o.construct or "") for k in ("single_pop_eas", "DE", "SHADE", "SEA", "de_deme", "shade_deme", "ea_deme", "Deme.")) and "sprout" not in (o.subject or ""):
+            o.rule = "R12.3"
+            obs.append(o)
     # default number of elites
     mod = ctx.prog.modules["pyhms.demes.single_pop_eas.sea"]
     st = mod.globals_.get("DEFAULT_K_ELITES")
